@@ -5,5 +5,6 @@ INVARIANT TypeOK
 INVARIANT ColumnIndependent
 INVARIANT AssembleMonotone
 INVARIANT PoolIsUnion
+INVARIANT StorageIndependent
 INVARIANT OrderPermutesColumns
 CHECK_DEADLOCK FALSE
